@@ -194,3 +194,15 @@ Example C10_nonvacuous :
   | None => False
   end.
 Proof. vm_compute. repeat split; reflexivity. Qed.
+
+(* ---- tie (a), round 9: the fan-out walk of __iv_signal_do_wake, written with the tests and stores translated from the
+   current src/iv_signal.c (Gen/LeafSignal.v), selects exactly `walk` of the model: every interest of the signal in tree
+   order up to and including the first exclusive one, and counts them (MT/SignalLink.v) ---- *)
+Theorem C10_fan_out_walk_is_the_code :
+  forall sig same rest woken,
+  (forall r, In r same -> i_sig r = sig /\ i_addr r <> 0) ->
+  (match rest with [] => True | r :: _ => i_sig r <> sig /\ i_addr r <> 0 end) ->
+  0 <= woken -> woken + Z.of_nat (length same) < 2147483648 ->
+  SignalLink.do_wake_code sig (same ++ rest) woken = Some (walk same, woken + Z.of_nat (length (walk same))).
+Proof. exact SignalLink.do_wake_is_the_code. Qed.
+Print Assumptions C10_fan_out_walk_is_the_code.
